@@ -23,3 +23,76 @@ Print Assumptions C08_unsubscribe_outcome.
 Theorem C08_never_exceeds_limit : forall limit ops d, d <= limit -> let '(d', _, _) := run limit d d ops in d' <= limit.
 Proof. exact never_exceeds_limit. Qed.
 Print Assumptions C08_never_exceeds_limit.
+
+(* Integrated model Comp/Core.v (run in lock-step with the real gateway on every check), every sequence of stimuli and
+   scheduler grants: the gateway's direct-subscription count for a connected client is the number the client itself counts
+   from the frames it was sent (one more with every successful subscribe response, k fewer with every successful unsubscribe of
+   k) plus the subscribe requests still waiting for their access answer or for the resource - as long as
+   the client was never acknowledged an unsubscribe of more subscriptions than it held. *)
+From RG Require Comp.Conv Comp.Core Proofs.CoreProofsABC Proofs.CoreProofsDEF.
+Theorem C08_core_direct_count :
+  forall (val upd : Type) (app : upd -> val -> val) (norm : upd -> val -> option upd) (d : val),
+  (forall u v, norm u v = None -> app u v = v) ->
+  (forall u v u', norm u v = Some u' -> app u' v = app u v) ->
+  forall t ops c,
+  let s := fst (Core.exec val upd app norm d t ops) in let outs := snd (Core.exec val upd app norm d t ops) in
+  Core.disc (Core.conns val upd s c) = false -> Core.no_underflow val upd app c outs ->
+  Core.direct (Core.conns val upd s c) = Core.lcnt val (Core.client val upd app c outs) + Core.pending val upd s c.
+Proof. exact CoreProofsABC.core_direct_count. Qed.
+Print Assumptions C08_core_direct_count.
+
+(* Failed requests and given-up subscriptions leave nothing behind: once nothing is left to do, a Subscription object that is
+   no longer its connection's current one (access denied, unsubscribed, connection closed) is not a subscriber of the cached
+   resource any more and holds nothing. *)
+Theorem C08_core_nothing_left_behind :
+  forall (val upd : Type) (app : upd -> val -> val) (norm : upd -> val -> option upd) (d : val),
+  (forall u v, norm u v = None -> app u v = v) ->
+  (forall u v u', norm u v = Some u' -> app u' v = app u v) ->
+  forall t ops i,
+  let s := fst (Core.exec val upd app norm d t ops) in
+  Core.quiescent val upd s -> i < Core.next val upd s ->
+  Core.cur (Core.conns val upd s (Core.owner (Core.insts val upd s i))) <> Some i ->
+  Conv.mem i (Conv.rs_subs val upd (Core.cv val upd s)) = false /\
+  Conv.loaded val upd (Conv.subs val upd (Core.cv val upd s) i) = false /\
+  Conv.eq val upd (Conv.subs val upd (Core.cv val upd s) i) = [].
+Proof. exact CoreProofsDEF.core_cleanup. Qed.
+Print Assumptions C08_core_nothing_left_behind.
+
+(* Unconditionally the gateway's count never exceeds that sum ... *)
+Theorem C08_core_direct_le :
+  forall (val upd : Type) (app : upd -> val -> val) (norm : upd -> val -> option upd) (d : val),
+  (forall u v, norm u v = None -> app u v = v) ->
+  (forall u v u', norm u v = Some u' -> app u' v = app u v) ->
+  forall t ops c,
+  let s := fst (Core.exec val upd app norm d t ops) in let outs := snd (Core.exec val upd app norm d t ops) in
+  Core.disc (Core.conns val upd s c) = false ->
+  Core.direct (Core.conns val upd s c) <= Core.lcnt val (Core.client val upd app c outs) + Core.pending val upd s c.
+Proof. exact CoreProofsABC.core_direct_le. Qed.
+Print Assumptions C08_core_direct_le.
+
+(* ... but the equation is false of the unchanged code without the premise (recorded finding KF-PENDING-DROPPED): two subscribe
+   requests waiting, one unsubscribe - acknowledged against them: gateway count 1, client count 0, two requests waiting. *)
+Theorem C08_core_direct_count_without_premise_refuted :
+  exists ops : list (Core.op nat),
+    let s := fst (Core.exec nat nat Nat.add (fun u _ => Some u) 0 100 ops) in
+    let outs := snd (Core.exec nat nat Nat.add (fun u _ => Some u) 0 100 ops) in
+    Core.disc (Core.conns nat nat s 0) = false /\ Core.direct (Core.conns nat nat s 0) = 1 /\
+    Core.lcnt nat (Core.client nat nat Nat.add 0 outs) = 0 /\ Core.pending nat nat s 0 = 2.
+Proof. exact CoreProofsABC.core_direct_count_refuted. Qed.
+Print Assumptions C08_core_direct_count_without_premise_refuted.
+
+(* In every reachable state an unsubscribe request succeeds exactly when its count is positive and at most the gateway's count. *)
+Theorem C08_core_unsubscribe_outcome :
+  forall (val upd : Type) (app : upd -> val -> val) (norm : upd -> val -> option upd) (d : val),
+  (forall u v, norm u v = None -> app u v = v) ->
+  (forall u v u', norm u v = Some u' -> app u' v = app u v) ->
+  forall t ops c id k q,
+  let s := fst (Core.exec val upd app norm d t ops) in
+  Core.cqueue (Core.conns val upd s c) = Core.QUnsub id k :: q ->
+  let '(s', o) := Core.step val upd app norm s (Core.GrantConn upd c) in
+  let n := Core.direct (Core.conns val upd s c) in
+  (k = 0 -> o = [Core.OErr val upd c id Core.EInvalid] /\ Core.direct (Core.conns val upd s' c) = n) /\
+  (0 < k -> n < k -> o = [Core.OErr val upd c id Core.ENoSub] /\ Core.direct (Core.conns val upd s' c) = n) /\
+  (0 < k -> k <= n -> o = [Core.OAck val upd c id k] /\ Core.direct (Core.conns val upd s' c) = n - k).
+Proof. exact CoreProofsABC.core_unsubscribe_outcome. Qed.
+Print Assumptions C08_core_unsubscribe_outcome.
